@@ -36,6 +36,7 @@ RULE = ("(a) the same call repeated 3x in one process must give bitwise "
         "context switches / a nested run; distinct = interleaving hash")
 RULE += ("  Also: per-call non-default constants (improve_tcg, ratios, factors) in repeated / concurrent / nested workloads; objectives that are exactly zero on a ball around x0; process-wide warnings.filters compared before / after batches of 32 concurrent calls.")
 RULE += (" Unknown option names (caller's dict unchanged); raising user functions in debug mode; numpy errstate / print options in the process state that is compared.")
+RULE += (" Family interleave: B, A, B in one thread with array sizes of A and B chosen to coincide (nb_points + n + 1, nb_points, or n).")
 ASSUMPTIONS = [
     "thread schedules are those the GIL produces with a 1 us switch interval "
     "plus injected yields; no free-threaded build available",
@@ -46,7 +47,8 @@ REQUIRED = {"repetition_runs": 100, "untapped_runs": 100, "argument_fingerprints
             "context_switches": 2000, "nested_inner_solves": 50}
 MIN_NONTRIVIAL = {"quick": 20, "thorough": 150}
 PLAN = [("repeat", 120, 1500), ("threads", 40, 500), ("nested", 12, 150),
-        ("inject", 0, 60), ("warnfilter", 4, 24)]
+        ("inject", 0, 60), ("warnfilter", 4, 24),
+        ("interleave", 60, 600)]
 WALL_BUDGET = {"quick": 900, "thorough": 7200}
 
 
@@ -339,6 +341,67 @@ def run_threads(case, inject=False):
                       counts=counts, sample=sample)
 
 
+def run_interleave(case):
+    """B, A, B in one thread: the second run of B equals the first whatever
+    A was.  A and B have different numbers of variables and non-default
+    numbers of interpolation points chosen so that internal array sizes
+    coincide (nb_points + n + 1 equal, or nb_points equal, or n equal): a
+    work array kept between calls and keyed on a size would be shared."""
+    rng = e2e.rng_of(ID, case)
+
+    def valid(n, npt):
+        return n + 1 <= npt <= (n + 1) * (n + 2) // 2
+
+    pairs = []
+    for na in range(1, 7):
+        for nb in range(1, 7):
+            for npa in range(na + 1, (na + 1) * (na + 2) // 2 + 1):
+                for npb in range(nb + 1, (nb + 1) * (nb + 2) // 2 + 1):
+                    if na == nb and npa == npb:
+                        continue
+                    if npa + na == npb + nb or (npa == npb and na != nb) \
+                            or (na == nb):
+                        pairs.append((na, npa, nb, npb))
+    kind = str(rng.choice(["sum", "sum", "npt", "n"]))
+    sel = [p for p in pairs if (
+        (kind == "sum" and p[1] + p[0] == p[3] + p[2] and p[0] != p[2])
+        or (kind == "npt" and p[1] == p[3] and p[0] != p[2])
+        or (kind == "n" and p[0] == p[2]))]
+    na, npa, nb, npb = sel[int(rng.integers(len(sel)))]
+
+    def mk(n, npt):
+        sp = gen.general(rng, n=n, con=str(rng.choice(["none", "none", "lin",
+                                                        "nl"])),
+                         obj_kinds=("quad", "rosen", "sinq"),
+                         bound_patterns="none", with_callback=False,
+                         opt_allow=(), maxfev=(60, 140), xunit=False)
+        sp["options"]["nb_points"] = npt
+        for k in ("rtype", "scribble"):
+            sp.pop(k, None)
+        return sp
+    spec_a, spec_b = mk(na, npa), mk(nb, npb)
+    taps.install()
+    b1 = mrun.run(spec_b)
+    a = mrun.run(spec_a)
+    b2 = mrun.run(spec_b)
+    viols = []
+    if signature(b1) != signature(b2):
+        viols.append(V("repetition_differs",
+                       f"the same call (n={nb}, nb_points={npb}) gives "
+                       f"another result after an unrelated call (n={na}, "
+                       f"nb_points={npa}) in between: {describe(b1)} vs "
+                       f"{describe(b2)}", mechanism="interleaved:" + kind,
+                       spec=e2e.jsonable(spec_b),
+                       other=e2e.jsonable(spec_a)))
+    counts = {"interleaved_triples": 1,
+              "repetition_runs": 2}
+    for key, val in e2e.base_counts(a).items():
+        counts[key] = counts.get(key, 0) + val
+    return e2e.record(case, viols,
+                      nt=f"interleave|{kind}|{na},{npa}|{nb},{npb}",
+                      tags=["fam:interleave"], counts=counts)
+
+
 def run_nested(case):
     import cobyqa
     rng = e2e.rng_of(ID, case)
@@ -492,6 +555,8 @@ def run_case(case):
         return run_warnfilter(case)
     if case["fam"] == "repeat":
         return run_repeat(case)
+    if case["fam"] == "interleave":
+        return run_interleave(case)
     if case["fam"] == "threads":
         return run_threads(case)
     if case["fam"] == "inject":
